@@ -107,3 +107,7 @@ mod tests {
         }
     }
 }
+
+// verification hook (compiled only under `cargo kani`, see /verif/MANIFEST.json hooks)
+#[cfg(kani)]
+include!(concat!(env!("VERIF_KANI_INC"), "/s3s_http_ordered_qs.rs"));
